@@ -173,4 +173,17 @@ def rcvLine (toks : List String) : String :=
     | _, _, _ => "bad-op"
   | _ => "bad-op"
 
+/-- two receive workers on one path: the second completes, then the stale first one times out.
+The outcome follows the code as it is (defect D6): with clean-on-error the completed file is removed. -/
+def dupwrqLine (toks : List String) : String :=
+  match toks with
+  | ["dupwrq", _b, _w, clean, file] =>
+    match parseContent file with
+    | some f =>
+      let sig := s!"{f.length}:{fnv f}"
+      let after := if clean = "1" then "none" else sig
+      s!"second=ok after-second={sig} after-stale-timeout={after}"
+    | none => "bad-op"
+  | _ => "bad-op"
+
 end Tftp.Driver
